@@ -459,6 +459,10 @@ def run_property(prop, tier, out, binary=None):
             {"c": "delete", "i": HALF},
             {"c": "append", "v": 80}], ["full", "optimal", "pm"]))
         hook_only.add("huge-batch")
+    if prop == "C07":
+        # C07 judges a tree against its OWN observed values, so it also runs the in-memory backends created with an
+        # initial leaf that is not the hasher's default leaf (deletions write the default leaf), at small depth
+        scenarios = [(n, sc_, (t + ["full-il", "optimal-il"]) if n in ("sim-d3", "random", "tour-d1") else t) for (n, sc_, t) in scenarios]
     total_events = 0
     distinct = nontriv = 0
     traces_ok = 0
